@@ -179,6 +179,12 @@ def verdict (ps : PState) (tblNow : Nat → Option ORes) (r : Req) (entryBefore 
       match entryBefore with
       | some en => (inm ≠ "-" && inm ≠ strHex en.o.etag) || (ims ≠ "-" && ims ≠ lmSym en.o.lm)
       | none => inm ≠ "-" || ims ≠ "-") then "bad:client-conditional-forwarded"
+  -- C06: a 304 answers the proxy's OWN conditional (built from the stored validators): it keeps the stored body in service or
+  -- is followed by an unconditional fetch; it is never what the client receives (client conditionals are not forwarded, so no
+  -- 304 the origin gives to a conditional request is an answer to the client's question)
+  else if st = 304 && (match upEntries.getLast? with
+      | some e => between (e ++ " ") "inm=" " " ≠ "-" || between (e ++ " ") "ims=" " " ≠ "-"
+      | none => false) then "bad:not-modified-for-the-stored-validators-relayed-to-the-client"
   -- C08: hop-by-hop request headers never reach the origin
   else if upEntries.any (fun e => between e "hop=[" "]" ≠ "") then "bad:hop-by-hop-header-forwarded"
   -- C03: HIT means no origin contact, and only while fresh
